@@ -111,27 +111,31 @@ theorem intDpi_range (n : Int) (d : Nat) : 1 ≤ intDpi n d ∧ intDpi n d ≤ 2
 
 /-- **Aspect ratio within rounding**: with only the width given, the computed height `cy'`
     satisfies `|cy' * w − h * cx| ≤ w / 2` (and symmetrically) -/
-theorem scale_aspect_width (iw ih x : Int) (hw : 0 < iw) (hx : x ≠ 0) :
+theorem scale_aspect_width (iw ih x : Int) (hw : 0 < iw) :
     let r := scale iw ih (some x) none
     r.1 = x ∧ 2 * (r.2 * iw - ih * x) ≤ iw ∧ -iw ≤ 2 * (r.2 * iw - ih * x) := by
   have hn : (0 : Nat) < iw.toNat := by omega
   have hc := C17.roundHE_close (ih * x) iw.toNat hn
   have e : ((iw.toNat : Nat) : Int) = iw := Int.toNat_of_nonneg (by omega)
-  simp only [scale, hx, if_false]
+  simp only [scale]
   rw [e] at hc
   exact ⟨trivial, hc.1, hc.2⟩
 
-theorem scale_aspect_height (iw ih y : Int) (hh : 0 < ih) (hy : y ≠ 0) :
+theorem scale_aspect_height (iw ih y : Int) (hh : 0 < ih) :
     let r := scale iw ih none (some y)
     r.2 = y ∧ 2 * (r.1 * ih - iw * y) ≤ ih ∧ -ih ≤ 2 * (r.1 * ih - iw * y) := by
   have hn : (0 : Nat) < ih.toNat := by omega
   have hc := C17.roundHE_close (iw * y) ih.toNat hn
   have e : ((ih.toNat : Nat) : Int) = ih := Int.toNat_of_nonneg (by omega)
-  simp only [scale, hy, if_false]
+  simp only [scale]
   rw [e] at hc
   exact ⟨trivial, hc.1, hc.2⟩
 
-theorem scale_both_none (iw ih : Int) : scale iw ih none none = (iw, ih) ∧ scale iw ih (some 0) none = (iw, ih) := by
+theorem scale_both_none (iw ih : Int) : scale iw ih none none = (iw, ih) := by
+  simp [scale]
+
+/-- both dimensions given: exactly those, 0 included (a size of 0 is a size, not an absent one) -/
+theorem scale_both_given (iw ih x y : Int) : scale iw ih (some x) (some y) = (x, y) := by
   simp [scale]
 
 /-- native size = ⌊914400·px / dpi⌋: within one EMU below the exact quotient -/
